@@ -745,6 +745,20 @@ impl NodeMon for C06 {
             rep.violation("C06/builder/display-differs-from-board", format!("{} vs {:?}", format!("{}", bb), text));
         }
         check_builder_fixed_point(&bb, "from-board", rep);
+        if same_core(&p, n.p) && rng.chance(1, 3) {
+            // the same state reached through the setters in another order must convert to the same board
+            let sb = builder_from_model_shuffled(n.p, rng);
+            rep.count("op_builder_shuffled_setters");
+            match Board::try_from(&sb) {
+                Ok(t) => {
+                    if t != *b {
+                        rep.violation("C06/builder/setter-order-changes-the-position", format!("{} built through shuffled setters gives {}", n.p.fen(), t));
+                    }
+                }
+                Err(e) => rep.violation("C06/builder/setter-order-rejected", format!("{} built through shuffled setters is rejected: {:?}", n.p.fen(), e)),
+            }
+            check_builder_fixed_point(&sb, "shuffled-setters", rep);
+        }
         if rng.chance(1, 4) {
             let arb = arbitrary_builder(rng);
             check_builder_fixed_point(&arb, "arbitrary", rep);
